@@ -54,7 +54,10 @@ class LoopEnv:
         self.word = self._word(self.mode, 0)
         self.shutdown = False
         fms = cfg.get("fms", "sym")
-        self.fms = c.boolean("fms") if fms == "sym" else bool(fms)
+        self.fms_per_call = fms == "per-refresh"
+        self.nfms = 0
+        self.fms_epoch = None
+        self.fms = c.boolean("fms") if fms in ("sym", "per-refresh") else bool(fms)
         self.fms_value = None
         self.fault = None
         self.iter_no = 0
@@ -92,6 +95,13 @@ class LoopEnv:
         return self.word
 
     def fms_attached(self):
+        if self.fms_per_call:
+            # the FMS connection may come and go during a run: it can change at every refreshData()
+            if self.fms_epoch != self.k:
+                self.fms_epoch = self.k
+                self.nfms += 1
+                self.fms = self.c.boolean(f"fms{self.nfms}")
+            self.log.add("fms", self.nfms, self.fms)
         return self.fms
 
     def sd_get_string(self, k, d):
@@ -351,7 +361,7 @@ def build_robot(layout, H, opts):
         opts["feedbacks"](H, CompA, CompB, CompB1, CompC, feedback)
 
     class RobotBase0(MagicRobot):
-        control_loop_wait_time = 0.02
+        control_loop_wait_time = H.period
 
         def createObjects(self):
             H.log.add("createObjects")
@@ -435,6 +445,15 @@ def run_robot(c, job, opts=None):
     env = LoopEnv(c, cfg, log)
     wpilib.ENV = env
     H = Harness(c, job, env, log)
+    per = cfg.get("period", 0.02)
+    if per == "sym":
+        import robotpy_ext.misc.precise_delay as _pd
+        import robotpy_ext.misc.simple_watchdog as _wd
+
+        _pd.int = _wd.int = sx.sym_int
+        per = c.real("period", 0.001, 0.1)
+    H.period = per
+    H.period_us = sx.sym_int(per * 1e6) if isinstance(per, sx.SNum) else int(per * 1e6)
     set_auto_pkg(cfg.get("auto_pkg", True))
     Robot, comps, hooks = build_robot(job["layout"], H, opts)
     H.comps, H.hook_names = comps, hooks
